@@ -92,7 +92,7 @@ func (x *Exec) mapKeyTerm(mt *types.Map, k Value) *Term {
 		return kv.Ref
 	case *StructV:
 		ts := x.flatten(kt, kv)
-		if x.mapKeySort(mt).K == KUnint {
+		if ks := x.mapKeySort(mt); ks.K == KUnint && strings.HasPrefix(ks.Name, "Key_") {
 			return x.tupleKey(x.keySt, kt, ts)
 		}
 		r := ts[0]
@@ -241,8 +241,10 @@ func (x *Exec) next(fr *Frame, st *State, in *ssa.Next) Value {
 	case *types.Struct:
 		cs := x.compsOf(kt)
 		var ts []*Term
-		if ks.K == KUnint {
+		if ks.K == KUnint && strings.HasPrefix(ks.Name, "Key_") {
 			ts = x.tupleKeyComps(st, kt, kterm)
+		} else if len(cs) == 1 {
+			ts = []*Term{kterm}
 		} else {
 			pos := ks.W
 			for _, c := range cs {
